@@ -111,7 +111,7 @@ fn check_parse(s: &State, name: &str, r: &Rendered, rep: &mut Reporter, c: &mut 
     c.inc("outcome:parsed");
     // (1) the AST is exactly what was written
     let got = drive::from_ast(&file);
-    if got != s.desc {
+    if got != *s.desc {
         let first = s
             .desc
             .decls
